@@ -52,6 +52,11 @@ pub fn sources(seed: u64) -> Vec<Src> {
             ESpec { zip64_local: true, zip64_central: 7, ..e(b"zip64-fields", 93) },
             ESpec { utf8: true, comment: b"fc".to_vec(), central_extra: extra_block(0x7777, b"ce"), local_extra: extra_block(0x6666, b"le"), ext_attr: 0o104755 << 16, ..e("ü-name".as_bytes(), 12) },
             ESpec { ext_attr: 0o040755 << 16 | 0x10, content: vec![], ..e(b"bdir/", 0) },
+            // names that look like directories on entries that are not plain empty stored records: a jar-style folder
+            // (deflated, two compressed bytes), a folder name with real content, a file whose name ends in a backslash
+            ESpec { ext_attr: 0o040755 << 16 | 0x10, content: vec![], ..e(b"assets/", 8) },
+            ESpec { ..e(b"payload/", 8) },
+            ESpec { ..e(b"blob\\", 0) },
         ],
         prefix: vec![0x5a; 30],
         ..Default::default()
@@ -350,6 +355,23 @@ pub fn run(args: &Args) -> i32 {
         });
         ctx.stats.merge(s);
         ctx.stats.max_depth = 3;
+    }
+    // zero-length reads on a decoding handle before it is raw-copied: they transfer nothing and change nothing
+    {
+        let mut items: Vec<(usize, usize)> = vec![];
+        for (si, sr) in srcs.iter().enumerate() {
+            for i in 0..sr.parsed.entries.len() {
+                if si != 0 || i % 5 == 3 || i >= 50 {
+                    items.push((si, i));
+                }
+            }
+        }
+        let (items_r, sb_r2) = (&items, &sb);
+        let s = par_for(items.len() as u64 * 2, 8, |t, st| {
+            let (si, i) = items_r[(t / 2) as usize];
+            crate::props::c09::rawcopy_after_empty_reads(sb_r2, si, i, 1 + (t % 2) as usize * 2, false, st, (7 << 40) + t);
+        });
+        ctx.stats.merge(s);
     }
     // a copy whose source reader fails part-way: every read index 0..=10 x 8 source entries x {decoding, raw} handles
     {
